@@ -1246,7 +1246,21 @@ PRINT_FROM = [
     ('sum(year) > 1', None),                                 # aggregates are not allowed in FROM
     ("meta('note') = 'meta text'", lambda e: (e.meta or {}).get('note') == 'meta text'),
     ("meta('num') = 42", lambda e: (e.meta or {}).get('num') == 42),
+    # has_account(pattern) over every directive type: the pattern is SEARCHED (ignoring case) in each account the
+    # directive refers to (Beancount's own getter: both accounts of a pad, the postings of a transaction, the account of
+    # open / close / balance / note / document; none for price / event / commodity / query / custom)
+    ("has_account('Equity:Opening')", lambda e: _refers_to(e, 'Equity:Opening')),          # source account of the pads
+    ("NOT has_account('Equity')", lambda e: not _refers_to(e, 'Equity')),
+    ("has_account('opening-balances$') AND type != 'transaction'",
+     lambda e: _refers_to(e, 'opening-balances$') and not isinstance(e, data.Transaction)),
+    ("has_account('padded')", lambda e: _refers_to(e, 'padded')),                           # padded account, any case
+    ("has_account('Closed|Inv:HOOL|^Assets:Z')", lambda e: _refers_to(e, 'Closed|Inv:HOOL|^Assets:Z')),
+    ("type = 'pad' AND NOT has_account('^Assets')", lambda e: isinstance(e, data.Pad) and not _refers_to(e, '^Assets')),
 ]
+
+
+def _refers_to(e, pattern):
+    return any(re.search(pattern, a, re.IGNORECASE) for a in getters.get_entry_accounts(e))
 
 
 def norm_meta(m):
@@ -1331,6 +1345,12 @@ def check_ledger_print(args):
             rec['strict'] = strict
             if pred is not None:
                 rec['oracle'] = [bool(pred(e)) for e in table_entries]
+            m = re.search(r"has_account\('([^']*)'\)", fr or '')
+            if m:
+                # evidence: directives that refer to a matching account other than their `account` attribute / postings
+                rec['second_account_only'] = sum(
+                    1 for e in table_entries if isinstance(e, data.Pad) and
+                    re.search(m.group(1), e.source_account, re.I) and not re.search(m.group(1), e.account, re.I))
             if strict and not has_pad:
                 full, ferrors = reload_printed(printed, 'loader')
                 rec['loader'] = [norm_entry(e) for e in full]
@@ -1726,7 +1746,7 @@ def run(tier, rng):
     judged = print_problems([r for _, r in flat])
     by_id = {id(r): path for path, r in flat}
     pkinds = {}
-    n_d = n_sel = n_excl = n_loader = n_oracle_d = n_shell = 0
+    n_d = n_sel = n_excl = n_loader = n_oracle_d = n_shell = n_has_account = n_pad_source = 0
     pstatus, vtypes, reload_err = {}, {}, {}
     for r, probs, excluded in judged:
         n_d += 1
@@ -1736,6 +1756,9 @@ def run(tier, rng):
         n_loader += 1 if 'loader' in r else 0
         n_oracle_d += 1 if 'oracle' in r else 0
         n_shell += 1 if r.get('shell') else 0
+        if 'second_account_only' in r:
+            n_has_account += 1
+            n_pad_source += r['second_account_only']
         for t in r.get('value_types', []):
             vtypes[t] = vtypes.get(t, 0) + 1
         for k, _ in r.get('reload_errors', []):
@@ -1757,6 +1780,8 @@ def run(tier, rng):
                       'with_independent_predicate': n_oracle_d, 'unfiltered_also_via_loader_load_string': n_loader,
                       'from_value_types': vtypes, 'reload_error_kinds': reload_err,
                       'entries_not_compared_booking_context': n_excl,
+                      'has_account_filters': n_has_account,
+                      'pad_directives_matched_by_source_account_only': n_pad_source,
                       'from_clauses': [fr for fr, _ in PRINT_FROM]}
 
     core.log(f'[C14] D judged/shrunk: {time.time() - t0:.1f}s')
